@@ -17,6 +17,7 @@ import (
 	"strings"
 
 	"github.com/shopspring/decimal"
+	"google.golang.org/protobuf/proto"
 )
 
 type draw struct {
@@ -278,6 +279,11 @@ func Protect(what string, x interface{}) {
 		ProtectSlice(what, s)
 		return
 	}
+	if m, ok := x.(proto.Message); ok && m != nil && !reflect.ValueOf(x).IsNil() {
+		// a proto message (a FHIR element or resource): compared with a clone of itself
+		msgFrames = append(msgFrames, &msgRec{what: what, ref: m, snap: proto.Clone(m)})
+		return
+	}
 	rv := reflect.ValueOf(x)
 	if rv.IsValid() && rv.Kind() == reflect.Map {
 		snap := map[string]string{}
@@ -296,6 +302,13 @@ type mapRec struct {
 
 var mapFrames []*mapRec
 
+type msgRec struct {
+	what      string
+	ref, snap proto.Message
+}
+
+var msgFrames []*msgRec
+
 // ProtectGlobals marks every package-level variable of the repository (and what it reaches) read-only (engine only;
 // natively the harness protects the specific tables it can name with Protect).
 func ProtectGlobals() {}
@@ -305,6 +318,11 @@ func ClockReads() int { return -1 }
 
 // CheckFrames compares the protected regions with their snapshots.
 func CheckFrames() {
+	for _, m := range msgFrames {
+		if !proto.Equal(m.ref, m.snap) {
+			panic(FrameViolated{m.what})
+		}
+	}
 	for _, m := range mapFrames {
 		if m.ref.Len() != len(m.snap) {
 			panic(FrameViolated{m.what + " (size)"})
